@@ -200,7 +200,7 @@ def run_harness(exe, args, timeout):
         raise Infra("harness %s %s exited %d:\n%s" % (exe, args, p.returncode,
                                                      p.stderr.decode("utf-8", "replace")[-4000:]))
     cases = []
-    for line in p.stdout.decode("utf-8").splitlines():
+    for line in p.stdout.decode("utf-8").split("\n"):
         if line.startswith("{"):
             cases.append(json.loads(line))
     return cases
